@@ -4,7 +4,7 @@ import sys, os, json, ast
 sys.path.insert(0, os.path.dirname(os.path.dirname(os.path.abspath(__file__))))
 from pcdverif.core import enc
 pid, check, name, lit = sys.argv[1:5]
-case = ast.literal_eval(lit)
+case = eval(lit)
 d = os.path.join(os.path.dirname(os.path.dirname(os.path.abspath(__file__))), 'replays', pid)
 os.makedirs(d, exist_ok=True)
 p = os.path.join(d, name + '.json')
